@@ -92,7 +92,9 @@ def run(ctx):
         if dten and any(d2 == tol * tol and d2 > 0 for info in v["idw"] for d2 in info["d2"]):
             dten = 0
         R = (lambda u, c: rep_t(u, c, dten)) if dten else rep
-        ds = dataset(st, cd, R)
+        # a station exactly on the 180 meridian can be written -180 or +180 in a [-180,180] dataset: both name the same place
+        plus180 = (not dten) and ctx.rng.random() < 0.5
+        ds = dataset(st, cd, (lambda u, c: 180.0 if (u == 360 and c == 180) else rep(u, c)) if plus180 else R)
         qlon = [R(q[0], cq) for q in qs]
         qlat = [q[1] / 2.0 for q in qs]
         # a query whose longitudes all lie in [0,180] reads the same in both conventions: the library then takes it as [0,360]
@@ -112,7 +114,7 @@ def run(ctx):
 
         def lon_ok(got, k):
             want = replon[k]
-            return abs(got - want) < 1e-9 or (ambiguous and abs((got - want) % 360) < 1e-9)
+            return abs(got - want) < 1e-9 or ((ambiguous or abs(abs(want) - 180.0) < 1e-9) and min((got - want) % 360, (want - got) % 360) < 1e-9)
 
         # ---- nearest
         fails = any(len(n) == 0 for n in v["nearest"])
